@@ -34,6 +34,7 @@ type Obligation struct {
 	SMTFile string
 	relaxed bool   // counterexample search mode: drop quantified assumptions
 	noAxiom string // lemma being proved: exclude itself and later lemmas
+	Src     string // cover/return: source text of the return statement (dead_paths.json matches on it)
 	Support bool   // support obligation (requires/inv/frame/cover/safe) as opposed to a tagged clause
 }
 
@@ -747,8 +748,79 @@ func constToVal(x *ssa.Const) *Val {
 	return nil
 }
 
+func (c *FnCtx) note(format string, a ...interface{}) {
+	n := fmt.Sprintf(format, a...)
+	for _, x := range c.notes {
+		if x == n {
+			return
+		}
+	}
+	c.notes = append(c.notes, n)
+}
+
+// orderedLocals lists the named locals (stack and heap Allocs) of fn in instruction order.
+func orderedLocals(fn *ssa.Function) []*ssa.Alloc {
+	var out []*ssa.Alloc
+	for _, b := range fn.Blocks {
+		for _, in := range b.Instrs {
+			if a, ok := in.(*ssa.Alloc); ok && a.Comment != "" {
+				out = append(out, a)
+			}
+		}
+	}
+	return out
+}
+
+// localAliases: when a contract names a local that no longer exists, and the function's locals
+// still have the same number, order and types as in the snapshot taken when the contract was
+// written, the name is bound positionally (a pure renaming of locals). Returns the current name.
+func (fr *Frame) localAlias(name string) string {
+	snap := fr.c.eng.localsSnap[fr.fn.RelString(nil)]
+	if snap == nil {
+		return ""
+	}
+	cur := orderedLocals(fr.fn)
+	if len(cur) != len(snap) {
+		return ""
+	}
+	alias := ""
+	for i, a := range cur {
+		if snap[i][1] != a.Type().String() {
+			return ""
+		}
+		if snap[i][0] == name {
+			if alias != "" && alias != a.Comment {
+				return "" // ambiguous
+			}
+			alias = a.Comment
+		}
+	}
+	if alias != "" {
+		fr.c.note("contract identifier %q bound to the renamed local %q of %s (same position and type as when the contract was written)", name, alias, fr.fn.Name())
+	}
+	return alias
+}
+
 // localByName finds the current value of a source-level local variable.
 func (fr *Frame) localByName(st *State, name string) *Val {
+	if v := fr.localByName1(st, name); v != nil {
+		return v
+	}
+	if fr.depth == 0 {
+		if alias := fr.localAlias(name); alias != "" && alias != name {
+			// only when the old name is gone altogether
+			for _, a := range orderedLocals(fr.fn) {
+				if a.Comment == name {
+					return nil
+				}
+			}
+			return fr.localByName1(st, alias)
+		}
+	}
+	return nil
+}
+
+func (fr *Frame) localByName1(st *State, name string) *Val {
 	var best *ssa.Alloc
 	for _, l := range fr.fn.Locals {
 		if l.Comment != name {
